@@ -406,6 +406,9 @@ def _run_forward_slit(case, ctx):
         ctx.sample({"kind": "forward-slit", "adsorbate": ads, "adsorbent": mat_arg if isinstance(mat_arg, str) else mat, "T": T, "chosen_widths": W[:4], "pressures": p[:4], "returned_midpoints": widths[:3]})
 
 
+_WEAK = [False]
+
+
 def _check_capture(ctx, model, geo, d_eff=None):
     """Residual of the potential equation at every solved width, using the closure the method built."""
     for cap in _CAPTURE:
@@ -462,7 +465,24 @@ def _check_capture(ctx, model, geo, d_eff=None):
             if best_local:  # (below the potential minimum, or a jump of a piecewise potential straddling ln p)
                 ctx.count("residual_outcome", "no-solution/best-attainable-width")
                 continue
+            # ... and where *no* width in the method's search interval reaches ln p (a weakly interacting probe at a pressure of
+            # 1e-7: the potential is nowhere that deep) there is nothing a reported width could solve: not judged, tabulated
+            try:
+                with numpy.errstate(all="ignore"):
+                    grid = numpy.exp(numpy.linspace(math.log(float(bound) * 1.0001), math.log(50.0), 600))
+                    deepest = min(float(fun(x)) - c for x in grid)
+                if deepest > math.log(p) + 1e-6:
+                    ctx.count("residual_outcome", "no-solution/potential-nowhere-deep-enough")
+                    continue
+            except (OverflowError, ValueError, ZeroDivisionError):
+                pass
             # the bounded minimiser of (exp(phi(L)) - p)^2 can also stop at a local minimum: it then does not solve the equation
+            if _WEAK[0] and model.startswith("RY"):
+                # recorded: with a weakly diamagnetic probe / adsorbent (susceptibility below 1e-8 nm3) the piecewise Rege-Yang
+                # potential is shallow and nearly flat between its jumps, and the minimiser stops on such a stretch
+                ctx.violation("Rege-Yang/weakly-diamagnetic-probe/bounded-minimiser-stops-off-the-solution", "a reported width does not solve the method's potential equation at its pressure", L=L, p=p,
+                              exp_phi=[lo, hi], bound=bound, geo=geo, cy=cap["cy"])
+                return
             ctx.violation("%s/%s/width-does-not-solve-potential-equation" % (model, geo), "a reported width does not solve the method's potential equation at its pressure", L=L, p=p, exp_phi=[lo, hi], bound=bound,
                           cy=cap["cy"])
             return
@@ -538,7 +558,11 @@ def _run_residual(case, ctx):
         return
     ctx.count("configs", "%s/%s/%s" % (model, geo, mat_arg if isinstance(mat_arg, str) else "user-dict"))
     widths, dist, cum = (numpy.asarray(x, dtype=float) for x in res[1])
-    _check_capture(ctx, model, geo, (ads["molecular_diameter"] + mat["molecular_diameter"]) / 2)
+    _WEAK[0] = ads["magnetic_susceptibility"] < 1e-8 or mat["magnetic_susceptibility"] < 1e-8
+    try:
+        _check_capture(ctx, model, geo, (ads["molecular_diameter"] + mat["molecular_diameter"]) / 2)
+    finally:
+        _WEAK[0] = False
     if not _CAPTURE:
         ctx.violation("solver-hook/not-reached", "the analysis returned but the solver hook saw nothing", model=model, geo=geo)
         return
